@@ -7,3 +7,4 @@ pub mod net;
 pub mod simple;
 pub mod gpu;
 pub mod sound;
+pub mod vsock;
